@@ -16,7 +16,7 @@ class Case:
         self.f = gen_fibre.fibre(
             rng, double=p["double"], nx=p["nx"], nt=p["nt"], span=p["span"], irregular=p.get("irregular", False),
             nbath=p.get("nbath", 2), nstretch_max=p.get("nstretch_max", 2), nta=p.get("nta", 0), ta_on_grid=p.get("ta_on_grid"),
-            noise=p.get("noise", 0.0), nmatch=p.get("nmatch", 0), match_reverse=p.get("match_reverse"), front_only=p.get("front_only", False), back_only=p.get("back_only", False), ta_on_ref=p.get("ta_on_ref", False), power_loss=p.get("power_loss", 0.02), segs=[tuple(x) for x in p["segs"]] if p.get("segs") else None,
+            noise=p.get("noise", 0.0), nmatch=p.get("nmatch", 0), match_reverse=p.get("match_reverse"), front_only=p.get("front_only", False), back_only=p.get("back_only", False), match_swap=p.get("match_swap"), ta_on_ref=p.get("ta_on_ref", False), power_loss=p.get("power_loss", 0.02), segs=[tuple(x) for x in p["segs"]] if p.get("segs") else None,
         )
         if p.get("ta_reversed") and len(self.f.trans_att) > 1:
             # the splices are handed to the API in descending order (a valid input: the trans_att coordinate keeps the caller's order)
